@@ -297,6 +297,11 @@ void XMLGrammarPoolImpl::deserializeGrammars(BinInputStream* const binIn)
     // thrown during deserialization.
     JanitorMemFunCall<XMLGrammarPoolImpl>   cleanup(this, &XMLGrammarPoolImpl::cleanUp);
 
+    // lock status of the stored pool: the grammars are loaded into the unlocked
+    // pool (the synchronized string pool exists only while locked), then the
+    // pool is locked again
+    bool storedLocked = false;
+
     try
     {
         XSerializeEngine  serEng(binIn, this);
@@ -324,7 +329,7 @@ void XMLGrammarPoolImpl::deserializeGrammars(BinInputStream* const binIn)
         }
 
         //lock status
-        serEng>>fLocked;
+        serEng>>storedLocked;
 
         //StringPool, don't use >>
         fStringPool->serialize(serEng);
@@ -348,9 +353,9 @@ void XMLGrammarPoolImpl::deserializeGrammars(BinInputStream* const binIn)
     // Everything is OK, so we can release the cleanup object.
     cleanup.release();
 
-    if (fLocked)
+    if (storedLocked)
     {
-        createXSModel();
+        lockPool();
     }
 }
 
